@@ -22,6 +22,59 @@
 extern const struct site sites_part0[], sites_part1[], sites_part2[], sites_part3[];
 static const struct site * const parts[SITES_NPARTS] = { sites_part0, sites_part1, sites_part2, sites_part3 };
 
+/* Two humansize() requests in progress at once.  humansize.h: each call returns its own malloc'ed
+ * string and nothing else is kept, so two threads may each be formatting a size.  The single-
+ * threaded equivalent: inside the allocation that the OUTER humansize() of an `hs` case makes
+ * (the library's calls to malloc / strdup are interposed: --wrap), humansize() of ANOTHER size is
+ * called and compared with what the same call returned alone, before the outer call began; then
+ * the outer call goes on and its result is compared with the model as always.  Whether this
+ * happens, and the other size, are functions of the case text. */
+void * __real_malloc(size_t);
+char * __real_strdup(const char *);
+static int drv_inlib;		/* inside the outer humansize() */
+static long drv_nlib, drv_nestk;	/* allocations made by it so far; the one to nest in (0 = none) */
+static uint64_t drv_nestv;
+static char * drv_nest_want;
+static int drv_nest_bad;
+
+static void nest_prepare(uint32_t h)
+{
+	uint64_t v;
+
+	free(drv_nest_want); drv_nest_want = NULL;
+	drv_nlib = 0; drv_nest_bad = 0;
+	drv_nestk = ((h >> 11) & 3) ? 1 : 0;
+	if (!drv_nestk) return;
+	v = ((uint64_t)(h * 2654435761u) << 32) | (uint64_t)(h * 40503u + 977u);
+	drv_nestv = v >> ((h >> 13) % 64);	/* all magnitudes */
+	drv_nest_want = humansize(drv_nestv);	/* alone */
+}
+
+static void lib_alloc(void)
+{
+	char * got;
+
+	if (!drv_inlib || ++drv_nlib != drv_nestk) return;
+	drv_inlib = 0;
+	got = humansize(drv_nestv);
+	if ((got == NULL) != (drv_nest_want == NULL) || (got != NULL && strcmp(got, drv_nest_want) != 0))
+		drv_nest_bad = 1;
+	free(got);
+	drv_inlib = 1;
+}
+
+void * __wrap_malloc(size_t n)
+{
+	lib_alloc();
+	return __real_malloc(n);
+}
+
+char * __wrap_strdup(const char * s)
+{
+	lib_alloc();
+	return __real_strdup(s);
+}
+
 int main(void)
 {
 	char * line; char * tok[16];
@@ -31,7 +84,8 @@ int main(void)
 		 * case text.  parsenum.h: on success the macro "set[s] errno to zero", on failure to EINVAL
 		 * or ERANGE, so the result may not depend on (or leave standing) the value found on entry. */
 		static const int stale_errno[4] = { 0, EINVAL, ERANGE, EDOM };
-		int stale = stale_errno[(drv_case_hash(line) >> 7) & 3];
+		uint32_t h = drv_case_hash(line);
+		int stale = stale_errno[(h >> 7) & 3];
 		int n = drv_split(line, tok, 16);
 		if (n >= 10 && (strcmp(tok[0], "pn") == 0 || strcmp(tok[0], "pf") == 0)) {
 			char desc[256]; size_t len; uint8_t * s;
@@ -49,8 +103,10 @@ int main(void)
 		} else if (n == 2 && strcmp(tok[0], "hs") == 0) {
 			uint64_t v = (uint64_t)strtoumax(tok[1], NULL, 16);
 			char * out;
+			nest_prepare(h);
 			errno = stale;
-			out = humansize(v);
+			drv_inlib = 1; out = humansize(v); drv_inlib = 0;
+			if (drv_nest_bad) printf("!other-request-disturbed ");
 			if (out == NULL) { printf("null\n"); continue; }
 			printf("ok "); drv_puthex((uint8_t *)out, strlen(out)); printf("\n");
 			free(out);
